@@ -33,6 +33,10 @@ def main():
     rc0, out0 = sh("PYTHONPATH=%s %s %s" % (agent_wt, PY, demo), cwd=agent_wt, timeout=600)
     rca, outa = sh("git apply %s" % patch, cwd=agent_wt)
     if rca != 0:
+        rca, outa = sh("git apply --3way %s" % patch, cwd=agent_wt)
+        sh("git reset -q", cwd=agent_wt)
+    if rca != 0:
+        sh("git checkout -- pysyncobj", cwd=agent_wt)
         print("patch does not apply in the agent's worktree:", outa); return 2
     rci, outi = sh("PYTHONPATH=%s %s -c 'import pysyncobj, pysyncobj.batteries'" % (agent_wt, PY), cwd=agent_wt)
     rc1, out1 = sh("PYTHONPATH=%s %s %s" % (agent_wt, PY, demo), cwd=agent_wt, timeout=600)
@@ -84,6 +88,16 @@ def main():
                        "(a fix: commit made after the change was written covers the situation it needs)" % rec["checked_on"])
     dst = os.path.join(VERIF, "seeded", "%s-%s" % (prop, k))
     os.makedirs(dst, exist_ok=True)
+    # judgements recorded by hand for this seed survive a re-run
+    try:
+        old = json.load(open(os.path.join(dst, "meta.json")))
+        for key in ("outside_quantifier", "note"):
+            if key in old and key not in rec:
+                rec[key] = old[key]
+        if old.get("superseded_by_fix") and not rec["caught"] and "superseded_by_fix" not in rec and rch == 0:
+            rec["superseded_by_fix"] = old["superseded_by_fix"]
+    except Exception:
+        pass
     shutil.copy(patch, os.path.join(dst, "patch.diff")); shutil.copy(demo, os.path.join(dst, "demo.py"))
     json.dump(rec, open(os.path.join(dst, "meta.json"), "w"), indent=1)
     sh("git -C /repo worktree remove --force %s" % fresh)
